@@ -26,7 +26,7 @@ type Ctx struct {
 	fo           map[string]*FO
 	bkCache      map[string]*bkRun
 	unclassified map[string]bool
-	frontendFn func(token.Pos) bool
+	frontendFn   func(token.Pos) bool
 	ctorOnly     func(fn *types.Func) bool
 	cbReach      map[*types.Func]string
 	curEngine    *pw.Engine
